@@ -217,4 +217,222 @@ Section ESRP.
       + intros _. rewrite R2. apply skipn_all2. lia.
       + intros _ _. apply skipn_all2. lia.
   Qed.
+
+  (* ---------- DecodeChunk on any window ---------- *)
+
+  Lemma unit_size_cases w : unit_size w = 1 \/ unit_size w = 2 \/ unit_size w = 4.
+  Proof. destruct w; cbn; tauto. Qed.
+
+  Lemma K_aligned w : K mod unit_size w = 0 /\ 8 <= K / unit_size w.
+  Proof.
+    assert (E : K = 4 * (K / 4)) by (pose proof (Nat.div_mod K 4); lia).
+    destruct w; cbn [unit_size].
+    - rewrite Nat.mod_1_r, Nat.div_1_r. lia.
+    - split; [lia|]. apply Nat.div_le_lower_bound; lia.
+    - split; [exact HK4|]. apply Nat.div_le_lower_bound; lia.
+  Qed.
+
+  Lemma decode_chunk_progress e s out : EInv s -> 0 < e_end s - e_start s ->
+    (is_eof (e_is s) = false -> e_end s - e_start s = K) ->
+    exists c s' out', esr_decode_chunk tgt pol mark e s out = Ok (c, s', out') /\
+      EInv s' /\ e_is s' = e_is s /\ e_type s' = e_type s /\
+      (c = ChSuccess -> e_end s' - e_start s' < e_end s - e_start s).
+  Proof.
+    intros I Hne Hfull. unfold esr_decode_chunk.
+    set (w := utf_width e). set (u := unit_size w). set (n := e_end s - e_start s) in *.
+    set (a := n - n mod u).
+    assert (Hu : 1 <= u) by (subst u; destruct (unit_size_cases w) as [H|[H|H]]; rewrite H; lia).
+    assert (Hq : exists q, a = u * q /\ a <= n /\ n / u = q /\ (n = K -> 8 <= q)).
+    { exists (n / u). subst a. pose proof (Nat.div_mod n u ltac:(lia)) as Hdm.
+      assert (HK8 : n = K -> 8 <= n / u) by (intros ->; apply K_aligned).
+      set (q := n / u) in *. set (md := n mod u) in *. clearbody q md.
+      repeat split; try assumption; nia. }
+    destruct Hq as [q [Ha [Han [Hdiv Hq8]]]].
+    pose proof I as I'. destruct I'.
+    assert (Ls : length (slice (e_buf s) (e_start s) a) = a) by (rewrite slice_length; lia).
+    rewrite class_decode_core.
+    set (W := adapt (utf_endian e) w (le_units w (slice (e_buf s) (e_start s) a))).
+    assert (HW : units w W).
+    { subst W. apply adapt_units. apply le_units_units. apply bytes_slice. exact e_by0. }
+    assert (LW : length W = q).
+    { subst W. assert (L0 : length (le_units w (slice (e_buf s) (e_start s) a)) = q).
+      { rewrite le_units_length, Ls. fold u. rewrite Ha, Nat.mul_comm, Nat.div_mul by lia. reflexivity. }
+      destruct (utf_endian e); cbn [adapt]; [exact L0 | rewrite map_length; exact L0]. }
+    destruct (core_bounds w tgt pol mark W out HW) as [B1 [B2 [B3 B4]]].
+    set (r := core_decode w tgt pol mark W out) in *.
+    clear Hdiv. rewrite LW in *.
+    assert (Hp : exists p, r_pos r * u = p /\ p <= a /\ (1 <= r_pos r -> 1 <= p)).
+    { exists (r_pos r * u). repeat split; nia. }
+    destruct Hp as [p [Ep [Hpa Hp1]]]. rewrite Ep.
+    assert (Hmax : maxlen w <= 6) by (destruct w; cbn; lia).
+    set (s1 := mkE (e_is s) (e_buf s) (e_start s + p) (e_end s) (e_type s)).
+    assert (I1 : EInv s1).
+    { subst s1. constructor; cbn [e_is e_buf e_start e_end e_type]; try assumption; lia. }
+    assert (I0 : EInv (mkE (e_is s) (e_buf s) 0 0 (e_type s))).
+    { constructor; cbn [e_is e_buf e_start e_end e_type]; try assumption; lia. }
+    destruct (r_code r) eqn:Ec; try congruence.
+    - (* Success *)
+      specialize (B3 eq_refl).
+      destruct (is_eof (e_is s)) eqn:Eeof.
+      + destruct (negb (e_start s1 =? e_end s1)) eqn:Et.
+        * destruct pol.
+          -- eexists _, _, _. split; [reflexivity|]. splits; try reflexivity; try exact I0. try subst s1; cbn [e_start e_end]; lia.
+          -- eexists _, _, _. split; [reflexivity|]. splits; try reflexivity; try exact I1. discriminate.
+        * apply negb_false_iff, Nat.eqb_eq in Et. subst s1. cbn [e_start e_end] in Et.
+          eexists _, _, _. split; [reflexivity|]. splits; try reflexivity; try exact I1. try subst s1; cbn [e_start e_end]; lia.
+      + specialize (Hfull eq_refl). specialize (Hq8 Hfull).
+        eexists _, _, _. split; [reflexivity|]. splits; try reflexivity; try exact I1. intros _. try subst s1; cbn [e_start e_end]; lia.
+    - (* InvalidSequence *)
+      destruct (is_eof (e_is s)); eexists _, _, _; (split; [reflexivity|]); splits; try reflexivity; try exact I1; discriminate.
+    - (* UnexpectedEnd *)
+      destruct (B4 eq_refl) as [B5 B6].
+      destruct (is_eof (e_is s)) eqn:Eeof.
+      + destruct pol.
+        * eexists _, _, _. split; [reflexivity|]. splits; try reflexivity; try exact I0. try subst s1; cbn [e_start e_end]; lia.
+        * eexists _, _, _. split; [reflexivity|]. splits; try reflexivity; try exact I1. discriminate.
+      + specialize (Hfull eq_refl). specialize (Hq8 Hfull).
+        eexists _, _, _. split; [reflexivity|]. splits; try reflexivity; try exact I1. intros _. try subst s1; cbn [e_start e_end]; lia.
+  Qed.
+
+  (* ---------- ReadChunk on any stream: it ends, reports an error, or consumes ---------- *)
+
+  Lemma remaining_read_next s : EInv s ->
+    remaining (snd (esr_read_next K s)) = remaining s.
+  Proof.
+    intros I. destruct (read_next_spec s I) as [_ [_ [_ [got [G1 [G2 _]]]]]].
+    unfold remaining. rewrite G1, G2, !app_length. lia.
+  Qed.
+
+  Lemma read_chunk_progress s out : EInv s ->
+    exists c s' out', esr_read_chunk K tgt pol mark s out = Ok (c, s', out') /\ EInv s' /\
+      (c = ChSuccess -> remaining s' < remaining s) /\ (c = ChEndFile -> out' = out).
+  Proof.
+    intros I. unfold esr_read_chunk. destruct (esr_is_end s) eqn:Eend.
+    { eexists _, _, _. split; [reflexivity|]. splits; try reflexivity; try exact I; discriminate. }
+    pose proof (read_next_spec s I) as RN. cbn zeta in RN.
+    pose proof (remaining_read_next s I) as RR.
+    destruct (esr_read_next K s) as [ok s1]. cbn [fst snd] in *.
+    destruct RN as [I1 [St1 [Ty1 [got [G1 [G2 [G3 [G4 [G5 G6]]]]]]]]].
+    pose proof (win_length s1 I1) as WL1.
+    destruct (negb ok && (e_start s1 =? e_end s1)) eqn:Eempty.
+    { eexists _, _, _. split; [reflexivity|]. splits; try reflexivity; try exact I1; discriminate. }
+    (* the window is not empty *)
+    assert (Hne : 0 < e_end s1 - e_start s1).
+    { apply andb_false_iff in Eempty. destruct Eempty as [E|E].
+      - apply negb_false_iff in E. rewrite G3 in E. apply negb_true_iff, Nat.eqb_neq in E.
+        rewrite <- WL1, G1, app_length. lia.
+      - apply Nat.eqb_neq in E. destruct I1. lia. }
+    assert (Hfull : is_eof (e_is s1) = false -> e_end s1 - e_start s1 = K).
+    { intros H. rewrite <- WL1. apply G4. exact H. }
+    assert (Hdec : forall e, exists c s' out', esr_decode_chunk tgt pol mark e s1 out = Ok (c, s', out') /\
+              EInv s' /\ (c = ChSuccess -> remaining s' < remaining s) /\ (c = ChEndFile -> out' = out)).
+    { intros e. destruct (decode_chunk_progress e s1 out I1 Hne Hfull) as [c [s' [out' [E1 [I' [Eis [_ Hlt]]]]]]].
+      exists c, s', out'. split; [exact E1|]. split; [exact I'|]. split.
+      - intros Hc. specialize (Hlt Hc). rewrite <- RR. unfold remaining, unread. rewrite Eis.
+        rewrite (win_length s' I'), WL1. lia.
+      - intros Hc. subst c. exfalso. clear - E1. unfold esr_decode_chunk in E1.
+        repeat match type of E1 with
+        | context [match ?x with _ => _ end] => destruct x; try discriminate
+        end; inversion E1. }
+    destruct (e_type s1) eqn:Ety; try apply Hdec.
+    destruct tgt eqn:Etgt; try apply Hdec.
+    (* UTF-8 to char: the window is appended as it is *)
+    eexists _, _, _. split; [reflexivity|].
+    assert (I0 : EInv (mkE (e_is s1) (e_buf s1) 0 0 (e_type s1))).
+    { destruct I1. constructor; cbn [e_is e_buf e_start e_end e_type]; try assumption; lia. }
+    rewrite <- Ety. splits; try reflexivity; try exact I0; try discriminate.
+    intros _. rewrite <- RR. unfold remaining, unread, win. cbn [e_is e_buf e_start e_end].
+    rewrite slice_length. fold (win s1). rewrite WL1. cbn. lia.
+  Qed.
+
+  (* ---------- the constructor ---------- *)
+
+  Lemma new_spec sk :
+    exists s0, esr_new K (stream_of data sk) = Ok s0 /\ EInv s0 /\ remaining s0 <= length data /\
+      (data = [] -> e_type s0 = Utf8 /\ win s0 = [] /\ unread s0 = []) /\
+      (data <> [] -> exists e off, detect (firstn K data) = Ok (e, off) /\ e_type s0 = e /\
+                win s0 ++ unread s0 = skipn off data).
+  Proof.
+    unfold esr_new.
+    set (si := mkE (stream_of data sk) (repeat 0%N K) 0 0 Utf8).
+    assert (Ii : EInv si).
+    { subst si. constructor; cbn [e_is e_buf e_start e_end stream_of is_data is_pos is_eof is_fail];
+        try lia; try discriminate; try reflexivity.
+      - apply repeat_length.
+      - apply Forall_forall. intros x Hx. apply repeat_spec in Hx. subst x. reflexivity. }
+    pose proof (read_next_spec si Ii) as RN. cbn zeta in RN.
+    destruct (esr_read_next K si) as [ok s1]. cbn [fst snd] in *.
+    destruct RN as [I1 [St1 [Ty1 [got [G1 [G2 [G3 [G4 [G5 G6]]]]]]]]].
+    assert (Wi : win si = []) by reflexivity.
+    assert (Ui : unread si = data) by reflexivity.
+    rewrite Wi in G1. rewrite Ui in G2. cbn [app] in G1.
+    pose proof (win_length s1 I1) as WL1.
+    assert (Egot : got = firstn K data).
+    { destruct (is_eof (e_is s1)) eqn:Ee.
+      - rewrite (G5 eq_refl), app_nil_r in G2. rewrite <- G2. symmetry. apply firstn_all2.
+        rewrite G2, <- G1, WL1. destruct I1. lia.
+      - specialize (G4 eq_refl). rewrite G1 in G4. rewrite G2. rewrite <- G4. symmetry. apply firstn_app_exact. }
+    destruct ok.
+    - (* something was read: detect the encoding on the window *)
+      fold (win s1). rewrite G1, Egot.
+      destruct (detect_ok (firstn K data)) as [e [off [Ed [Ho1 Ho2]]]]. rewrite Ed. cbn [bind fst snd].
+      eexists. split; [reflexivity|].
+      assert (Hoff : off <= e_end s1 - e_start s1) by (rewrite <- WL1, G1, Egot; exact Ho1).
+      assert (I2 : EInv (mkE (e_is s1) (e_buf s1) (e_start s1 + off) (e_end s1) e)).
+      { destruct I1. constructor; cbn [e_is e_buf e_start e_end e_type]; try assumption; lia. }
+      assert (W2 : win (mkE (e_is s1) (e_buf s1) (e_start s1 + off) (e_end s1) e) = skipn off (win s1)).
+      { unfold win. cbn [e_buf e_start e_end]. unfold slice.
+        rewrite <- skipn_skipn. replace (e_end s1 - (e_start s1 + off)) with (e_end s1 - e_start s1 - off) by lia.
+        rewrite <- skipn_firstn_comm'. f_equal. f_equal. lia. }
+      split; [exact I2|]. split.
+      + unfold remaining. rewrite W2, skipn_length. unfold unread at 1. cbn [e_is].
+        fold (unread s1). assert (Ld : length data = length got + length (unread s1)) by (rewrite G2 at 1; apply app_length).
+        rewrite G1. lia.
+      + split.
+        * intros Hd. exfalso. symmetry in G3. apply negb_true_iff, Nat.eqb_neq in G3.
+          rewrite Hd in G2. apply (f_equal (@length N)) in G2. rewrite app_length in G2. cbn in G2. lia.
+        * intros _. exists e, off. split; [exact Ed|]. split; [reflexivity|].
+          rewrite W2. unfold unread at 1. cbn [e_is]. fold (unread s1). rewrite G2 at 2.
+          rewrite skipn_app. rewrite G1. f_equal.
+          replace (off - length got) with 0 by (rewrite Egot; lia). reflexivity.
+    - (* nothing could be read: the stream is empty *)
+      eexists. split; [reflexivity|]. split; [exact I1|].
+      symmetry in G3. apply negb_false_iff, Nat.eqb_eq in G3.
+      destruct got; [|discriminate]. cbn [app] in G2.
+      assert (Hd : data = []) by (apply G6; [reflexivity | exact Wi]).
+      split; [unfold remaining; rewrite G1, <- G2, Hd; cbn; lia|].
+      split; [|intros Hn; contradiction].
+      intros _. rewrite Hd in G2. repeat split; try assumption; try congruence.
+  Qed.
+
+  (* ---------- the read loop ends on every stream ---------- *)
+
+  Definition final (c : chres) : Prop := c = ChEndFile \/ c = ChDecodeError.
+
+  Lemma loop_total : forall fuel s out acc, EInv s -> remaining s < fuel ->
+    exists k c out' ty,
+      esr_loop K tgt pol mark fuel s out acc = RunDone (acc ++ repeat ChSuccess k ++ [c]) out' ty /\
+      final c /\ k <= remaining s.
+  Proof.
+    induction fuel as [|fuel IH]; intros s out acc I Hf; [lia|].
+    cbn [esr_loop].
+    destruct (read_chunk_progress s out I) as [c [s' [out' [E [I' [Hlt _]]]]]]. rewrite E.
+    destruct c.
+    - specialize (Hlt eq_refl).
+      destruct (IH s' out' (acc ++ [ChSuccess]) I' ltac:(lia)) as [k [c [o [ty [E2 [Fc Hk]]]]]].
+      exists (S k), c, o, ty. rewrite E2. rewrite <- app_assoc. cbn [repeat app].
+      repeat split; try assumption. lia.
+    - exists 0, ChDecodeError, out', (e_type s'). cbn [repeat app]. repeat split; [right; reflexivity | lia].
+    - exists 0, ChEndFile, out', (e_type s'). cbn [repeat app]. repeat split; [left; reflexivity | lia].
+  Qed.
+
+  Theorem esr_run_total sk fuel : length data < fuel ->
+    exists k c out ty,
+      esr_run K tgt pol mark fuel (stream_of data sk) = RunDone (repeat ChSuccess k ++ [c]) out ty /\
+      final c /\ k <= length data.
+  Proof.
+    intros Hf. unfold esr_run. destruct (new_spec sk) as [s0 [E [I0 [Hr _]]]]. rewrite E.
+    destruct (loop_total fuel s0 [] [] I0 ltac:(lia)) as [k [c [o [ty [E2 [Fc Hk]]]]]].
+    exists k, c, o, ty. rewrite E2. repeat split; try assumption. lia.
+  Qed.
 End ESRP.
